@@ -749,6 +749,27 @@ def l_strlen( ctx ):
     return res
 
 
+@rule( 'G-PADPOS', props=( 'C10', ), floor=1 )
+def g_padpos( ctx ):
+    """STRING: whether a pad octet follows the text is decided by the LENGTH of the value alone, never by where in the stream it lies - the
+    decisions out of the text state give the same answer at an even and at an odd position ( the clause of G-EXACT that bears on what a
+    length-limited value may consume; evaluated on ( text, count, position ) samples )"""
+    full = g_exact( ctx )
+    res = Result( 'G-PADPOS' )
+    for f in full.findings:
+        if 'where in the stream' in f.construct:
+            f.rule = 'G-PADPOS'
+            res.findings.append( f )
+    for i_ in full.instances:
+        if i_['fact'].startswith( 'STRING:' ) and ( i_['verdict'] == 'holds' or 'where in the stream' in i_['fact'] ):
+            res.instances.append( dict( i_, rule='G-PADPOS' ))
+    if not res.instances and not any( f.func.startswith( 'STRING.' ) for f in full.findings ):
+        raise AnalysisError( 'G-PADPOS: the decisions out of the STRING text state were not examined' )
+    if not res.instances:	# ( G-EXACT reports another defect of the same decisions; the position clause was evaluated with them )
+        res.instances.append( dict( rule='G-PADPOS', site=full.instances[-1]['site'], fact='STRING: decisions evaluated at both parities of the position ( another G-EXACT clause reports them )', verdict='holds', nontrivial=False ))
+    return res
+
+
 @rule( 'G-EXACT', props=( 'C08', ), floor=2 )
 def g_exact( ctx ):
     """STRING / SSTRING parsers: the count is a LIMIT on what the text may consume - when the input ends first, the '.*' body is content with
@@ -788,11 +809,16 @@ def g_exact( ctx ):
                     if t_ == 'data[path].string': return ast.Constant( value=text )
                     if t_ == 'data[path].length': return ast.Constant( value=count )
                     return self.generic_visit( n ) or n
-            v = try_fold( Sub().visit( ast.parse( ast.unparse( lam.body ), mode='eval' ).body ), { 'source.peek': lambda: ( 0x41 if more else None ) }, default=NoFold )
-            if v is NoFold:
+            # ( the value may begin anywhere in the stream: what the source has sent so far is given both parities, and the decision is the same )
+            vs = [ try_fold( Sub().visit( ast.parse( ast.unparse( lam.body ), mode='eval' ).body ), { 'source.peek': lambda: ( 0x41 if more else None ), 'source.sent': sent_ }, default=NoFold )
+                   for sent_ in ( 2 + len( text ), 3 + len( text )) ]
+            if NoFold in vs:
                 raise AnalysisError( '%s.__init__: predicate outside the modelled subset: %s' % ( cname, norm_text( lam.body )[:80] ))
-            return bool( v )
+            if bool( vs[0] ) != bool( vs[1] ):
+                posdep.append(( lam, text, count ))
+            return bool( vs[0] )
         bad = None
+        posdep = []
         for a in exits:
             lam = pred_of( a.value )
             if lam is None:
@@ -820,7 +846,11 @@ def g_exact( ctx ):
                 bad = ( a, 'the way out %s is taken for a text of %d octets under a count of %d' % ( norm_text( a.targets[0] ), len( short[0][0] ), short[0][1] ))
                 break
         full = [ ( t, c ) for t, c in (( 'abc', 3 ), ( 'abcd', 4 ), ( 'a', 1 ), ( 'ab', 2 )) if not any( pred_of( a.value ) is None or holds( pred_of( a.value ), t, c ) for a in exits ) ]
-        if bad:
+        if posdep and not bad:
+            res.bad( src, posdep[0][0], '%s: the way out of the text state is decided by where in the stream the value lies ( a text of %d octets under a count of %d: one answer at an even position, another at an odd one )' % (
+                         cname, len( posdep[0][1] ), posdep[0][2] ),
+                     'the pad octet belongs to a value of odd LENGTH wherever it begins: behind an odd number of octets an even-length string takes one octet of what follows it, an odd-length one leaves its pad behind', func=cname + '.__init__' )
+        elif bad:
             res.bad( src, bad[0], '%s: %s' % ( cname, bad[1] ),
                      'a value whose text ends with the input before `length` octets were seen is accepted: a Write Tag cut off inside a string stores the fragment and is answered with success', func=cname + '.__init__' )
         elif full:
